@@ -85,7 +85,7 @@ func init() {
 }
 
 func runC01(tier string) int {
-	r := harness.NewRun("C01", "model_checking", tier, budget(tier, 45*time.Second, 12*time.Minute))
+	r := harness.NewRun("C01", "model_checking", tier, budget(tier, 45*time.Second, 25*time.Minute))
 	fams := c01Families()
 	var plans []famPlan
 	if tier == "thorough" {
